@@ -107,6 +107,8 @@ class R:
             return self.ifchain(st, ind)
         if k == "loop":
             return [f"{ind}{self.FOREVER} {{"] + self.block(st[1], ind + "    ") + [f"{ind}}}"]
+        if k == "for_noupd":
+            return self.for_noupd(st, ind)
         if k == "aug":
             return self.aug(st, ind)
         if k in ("inc", "dec"):
@@ -116,6 +118,13 @@ class R:
     def for_(self, st, ind):
         v = self.var(st[1])
         return [f"{ind}for (int {v} = {self.e(st[2])}; {v} < {self.e(st[3])}; {v}++) {{"] + self.block(st[4], ind + "    ") + [f"{ind}}}"]
+
+    FOR_DECL = "int "
+
+    def for_noupd(self, st, ind):
+        """for with an initialiser and a condition but no update part (the body advances the variable)"""
+        v = self.var(st[1])
+        return [f"{ind}for ({self.FOR_DECL}{v} = {self.e(st[2])}; {v} < {self.e(st[3])}; ) {{"] + self.block(st[4], ind + "    ") + [f"{ind}}}"]
 
 
 class Py(R):
@@ -150,6 +159,8 @@ class Py(R):
             return [f"{ind}for {st[1]} in range({self.e(st[2])}, {self.e(st[3])}):"] + self.block(st[4], ind + "    ")
         if k == "loop":
             return [f"{ind}while True:"] + self.block(st[1], ind + "    ")
+        if k == "for_noupd":
+            return [f"{ind}{st[1]} = {self.e(st[2])}", f"{ind}while {st[1]} < {self.e(st[3])}:"] + self.block(st[4], ind + "    ")
         return R.s(self, st, ind)
 
     def block(self, stmts, ind):
@@ -182,6 +193,8 @@ class Py(R):
 
 
 class Js(R):
+    FOR_DECL = "let "
+
     def let(self, name, e, ind):
         return [f"{ind}let {name} = {self.e(e)};"]
 
@@ -276,6 +289,9 @@ class Go(R):
             return [f"{ind}for {v} := {self.e(st[2])}; {v} < {self.e(st[3])}; {v}++ {{"] + self.block(st[4], ind + "    ") + [f"{ind}}}"]
         if k == "loop":
             return [f"{ind}for {{"] + self.block(st[1], ind + "    ") + [f"{ind}}}"]
+        if k == "for_noupd":
+            v = st[1]
+            return [f"{ind}for {v} := {self.e(st[2])}; {v} < {self.e(st[3])}; {{"] + self.block(st[4], ind + "    ") + [f"{ind}}}"]
         return R.s(self, st, ind)
 
     def ifchain(self, st, ind):
@@ -304,6 +320,8 @@ class Go(R):
 
 
 class Php(R):
+    FOR_DECL = ""
+
     def var(self, n):
         return "$" + n
 
@@ -375,6 +393,7 @@ def core_programs():
     add("for_break_and_continue", "break and continue in one for", [("let", "s", I(0)), ("for", "i", I(0), a, [("if", B("==", V("i"), b), [("break",)], None), ("if", c, [("continue",)], None), ("set", "s", B("+", V("s"), I(1)))]), ("ret", V("s"))], bounds=lb)
     add("for_continue_and_break_arms", "continue and break in the two arms of one if", [("let", "s", I(0)), ("for", "i", I(0), a, [("set", "s", B("+", V("s"), I(1))), ("if", B("==", V("i"), b), [("continue",)], [("break",)])]), ("ret", V("s"))], bounds=lb)
     add("for_nested_inner_last_break", "inner for ends the outer body and breaks", [("let", "s", I(0)), ("for", "i", I(0), a, [("set", "s", B("+", V("s"), I(1))), ("for", "j", I(0), b, [("if", B("==", V("j"), I(1)), [("break",)], None), ("set", "s", B("+", V("s"), I(10)))])]), ("ret", V("s"))], bounds=lb)
+    add("for_without_update", "for with initialiser and condition but no update", [("let", "s", I(0)), ("for_noupd", "i", b, a, [("set", "s", B("+", B("*", V("s"), I(2)), V("i"))), ("inc", "i")]), ("out", V("s")), ("ret", V("s"))], bounds=lb)
     add("for_nested", "nested for", [("let", "s", I(0)), ("for", "i", I(0), a, [("for", "j", I(0), b, [("set", "s", B("+", V("s"), B("*", V("i"), V("j"))))])]), ("ret", V("s"))],
         bounds=lb)
     g = ("g", ["p", "q"], [("out", V("p")), ("ret", B("-", V("p"), V("q")))])
